@@ -376,6 +376,8 @@ def _run_multi(case, rec: Recorder):
 
     key_rng = np.random.default_rng(case["seed"] + 17)
     shuffle_keys = bool(case["seed"] % 2)
+    reuse_containers = bool((case["seed"] // 2) % 2)
+    persist = [dict() for _ in range(5)]
 
     def build(ids, vect):
         state, action, reward, nstate, done = {}, {}, {}, {}, {}
@@ -458,6 +460,14 @@ def _run_multi(case, rec: Recorder):
             ids = list(range(next_id, next_id + w))
             next_id += w
             args = build(ids, vect)
+            if reuse_containers and vect:
+                # a caller that keeps ONE dict per field and refills it every step (same objects, new arrays); only for
+                # vectorised adds: an un-vectorised add stores the caller's dicts themselves (information, see below)
+                for k, f in enumerate(args):
+                    persist[k].clear()
+                    persist[k].update(f)
+                args = list(persist)
+                rec.hit("ma_adds_with_reused_field_dicts")
             ops.append(["add", w, "vect" if vect else "single"])
             buf.save_to_memory(*args, is_vectorised=vect)
             added += w
